@@ -516,7 +516,7 @@ func formulasIn(pk *packages.Package, fd *ast.FuncDecl, fn string, subst map[typ
 	}
 	defer func() { polyAbsorbed = nil }()
 	defer func() { polyRecv, polyRecv2, polyArgs, polyReach, polyPaths = nil, nil, nil, nil, false }()
-	fdefs := singleDefs(info, fd.Body)
+	fdefs := withRangeValues(info, fd.Body, singleDefs(info, fd.Body))
 	for o, d := range callerDefs {
 		if _, dup := fdefs[o]; !dup {
 			fdefs[o] = d
@@ -850,6 +850,12 @@ func identTokens(form string) []string {
 			j++
 		}
 		tok := form[i:j]
+		if j < len(form) && form[j] == '(' {
+			// a call: kept apart from a variable of the same name
+			out = append(out, tok+"(")
+			i = j
+			continue
+		}
 		out = append(out, tok)
 		if k := strings.Index(tok, "."); k > 0 {
 			out = append(out, tok[:k])
@@ -857,6 +863,28 @@ func identTokens(form string) []string {
 		i = j
 	}
 	return out
+}
+
+var formulaLocalsMemo = map[string]map[string]bool{}
+
+// formulaLocalsOf: the names of the variables fn declares in its body today (not parameters, not results).
+func formulaLocalsOf(fn string) map[string]bool {
+	if m, ok := formulaLocalsMemo[fn]; ok {
+		return m
+	}
+	m := map[string]bool{}
+	if d, ok := formulaDecls[fn]; ok && d.fd != nil && d.fd.Body != nil {
+		ast.Inspect(d.fd.Body, func(n ast.Node) bool {
+			if id, ok := n.(*ast.Ident); ok {
+				if v, ok := d.pk.TypesInfo.Defs[id].(*types.Var); ok && !v.IsField() {
+					m[id.Name] = true
+				}
+			}
+			return true
+		})
+	}
+	formulaLocalsMemo[fn] = m
+	return m
 }
 
 var reviewedTokensMemo = map[string]map[string]bool{}
@@ -1022,7 +1050,7 @@ func collectFormulas(p *Prog) map[string][]formulaSite {
 		if fd := caller.fd; fd.Recv != nil && len(fd.Recv.List) == 1 && len(fd.Recv.List[0].Names) == 1 {
 			callerRecv = caller.pk.TypesInfo.Defs[fd.Recv.List[0].Names[0]]
 		}
-		callerDefs := singleDefs(caller.pk.TypesInfo, caller.fd.Body)
+		callerDefs := withRangeValues(caller.pk.TypesInfo, caller.fd.Body, singleDefs(caller.pk.TypesInfo, caller.fd.Body))
 		callerReach := reachingDefs(caller.pk.TypesInfo, caller.fd.Body)
 		for _, hc := range calls {
 			hd, ok := formulaDecls[hc.h]
@@ -1031,6 +1059,7 @@ func collectFormulas(p *Prog) map[string][]formulaSite {
 			}
 			formulaHelpers[fn] = append(formulaHelpers[fn], hc.h)
 			subst := helperSubst(hd, hc.call)
+			recvArg(hd, hc.call, callerRecv, caller.pk.TypesInfo, subst)
 			for _, s := range formulasIn(hd.pk, hd.fd, hc.h, subst, callerRecv, callerDefs, callerReach) {
 				s.via = hc.h
 				s.fn = fn
@@ -1334,6 +1363,15 @@ func ruleFormulaSpec(c *Ctx) {
 			switch {
 			case allFound:
 				verdicts[i] = verdict{"ok", "named", at, e.spec}
+			case changed != "" && newVariableIn([]string{changed}, func(t string) bool {
+				if strings.HasSuffix(t, "(") {
+					return false
+				}
+				return formulaLocalsOf(e.fn)[t]
+			}, reviewedTokens(e.fn), e.target) != "":
+				// the call is made with a value built from a variable the reviewed function did not have: rebuilt, not
+				// comparable (see newVariableIn)
+				verdicts[i] = verdict{status: "missing", how: "newvar", pos: at, msg: fmt.Sprintf("%s makes the call {%s} with a variable the reviewed function did not have; the reviewed one is {%s} (%s)", e.fn, changed, strings.Join(e.named, " ; "), e.spec)}
 			case changed != "":
 				verdicts[i] = verdict{"bad", "", at, fmt.Sprintf("%s makes the call {%s} where the reviewed one is {%s} — spec: %s", e.fn, changed, strings.Join(e.named, " ; "), e.spec)}
 			default:
@@ -1458,9 +1496,22 @@ func ruleFormulaSpec(c *Ctx) {
 			}
 			// the target is now computed from a variable the reviewed function did not have (a counting loop's `step`
 			// from which the round number is derived): the function was rebuilt around another quantity, and the
-			// reviewed formula says nothing about that — undecided, not a different formula
-			if nv := newVariableIn(f.named, func(t string) bool { return own[t] != nil }, reviewedTokens(e.fn), e.target); nv != "" {
-				verdicts[i] = verdict{status: "missing", how: "newvar", pos: f.pos, msg: fmt.Sprintf("%s computes %s as {%s} from %s, a variable the reviewed function did not have; the reviewed formula is {%s} (%s)", e.fn, e.target, strings.Join(f.named, " ; "), nv, strings.Join(e.named, " ; "), e.spec)}
+			// reviewed formula says nothing about that — undecided, not a different formula. Judged on the resolved form: a
+			// new single-definition local is read through and does not count
+			if nv := newVariableIn(f.res, func(t string) bool {
+				// the result of an unexported function of the package that the reviewed code did not call
+				if strings.HasSuffix(t, "(") {
+					t = strings.TrimSuffix(t, "(")
+					if t != "" && t[0] >= 'a' && t[0] <= 'z' && !strings.Contains(t, ".") {
+						if _, isFn := formulaDecls[e.fn[:strings.Index(e.fn, ".")+1]+t]; isFn {
+							return true
+						}
+					}
+					return false
+				}
+				return own[t] != nil || formulaLocalsOf(e.fn)[t]
+			}, reviewedTokens(e.fn), e.target); nv != "" {
+				verdicts[i] = verdict{status: "missing", how: "newvar", pos: f.pos, msg: fmt.Sprintf("%s computes %s as {%s} from %s, a variable (or helper result) the reviewed function did not have; the reviewed formula is {%s} (%s)", e.fn, e.target, strings.Join(f.named, " ; "), nv, strings.Join(e.named, " ; "), e.spec)}
 				continue
 			}
 			// … or the reviewed steps the target no longer carries are carried by such a new variable (the start value
